@@ -251,6 +251,9 @@ func (cp *copier) walkHostFS(dest, src string, maxSymlinks int, includeMounts bo
 		}
 	}
 
+	if src != cp.ctrOutputDir && !strings.HasPrefix(src, cp.ctrOutputDir+"/") {
+		return fmt.Errorf("cannot output %q: only the output directory's own tmp mount can be copied from the host", src)
+	}
 	hostsrc := cp.hostOutputDir + src[len(cp.ctrOutputDir):]
 
 	// If src is a symlink, walk its target.
